@@ -47,8 +47,8 @@ ASSUMPTIONS = [
 EXHAUSTIVE = {'quick': False, 'thorough': False}
 EXHAUSTIVE_NOTE = 'stream A is exhaustive over its alphabet up to the stated length; the other streams are sampled'
 MIN_EVENTS = {
-    'quick': {'evaluations': 500000, 'oracle.nocomments': 45000, 'oracle.recover': 100000, 'oracle.eof-completion': 10000, 'oracle.errpos': 1000},
-    'thorough': {'evaluations': 8000000, 'oracle.nocomments': 750000, 'oracle.recover': 1500000, 'oracle.eof-completion': 100000, 'oracle.errpos': 10000},
+    'quick': {'evaluations': 500000, 'oracle.nocomments': 45000, 'oracle.recover': 100000, 'oracle.eof-completion': 10000, 'oracle.errpos': 1000, 'oracle.after-keyword': 20000},
+    'thorough': {'evaluations': 8000000, 'oracle.nocomments': 750000, 'oracle.recover': 1500000, 'oracle.eof-completion': 100000, 'oracle.errpos': 10000, 'oracle.after-keyword': 20000},
 }
 
 ALPHABET = [
@@ -326,6 +326,9 @@ def stream_open(ctx, tk, count):
         check_text(ctx, tk, full, True, 'D', completion=(ety, evals))
 
 
+KEYWORD_HEADS = ['@charset', '@import', '@media', '@page', '@namespace', '@font-face', '@variables', '@x', 'url(', 'U+1', '!important', 'a', '1e', '<!--']
+
+
 def stream_firstchar(ctx, tk):
     import unicodedata
 
@@ -344,6 +347,12 @@ def stream_firstchar(ctx, tk):
         for text in (c, c + 'a', 'a ' + c, c + c, c + ' b', 'x' + c + '1', '1' + c, '"' + c + '"', '\\' + c, '@' + c, '#' + c):
             check_text(ctx, tk, text, True, 'E')
             check_text(ctx, tk, text, False, 'E')
+        # round 8: every code point directly after a recognised keyword (what ends '@charset', '@import', 'url(' is decided per character)
+        for kw in KEYWORD_HEADS:
+            for text in (kw + c, kw + c + '"x";\nb', 'a{}\n' + kw + c + 'b c'):
+                ctx.count('oracle.after-keyword')
+                check_text(ctx, tk, text, True, 'E')
+                check_text(ctx, tk, text, False, 'E')
     if ctx.k == 0:
         ctx.count('stream.E.codepoints', len(cps))
 
